@@ -774,6 +774,11 @@ def complete_ensemble_sift(X, nensembles=4, ensemble_noise=.2,
     res = p.starmap(sift, args)
     noise = noise - np.array([r[:, 0] for r in res]).T
 
+    # One IMF has been computed so far
+    layer = 1
+    if max_imfs is not None and layer >= max_imfs:
+        continue_sift = False
+
     while continue_sift:
 
         proto_imf = X - imf.sum(axis=1)[:, None]
@@ -785,6 +790,7 @@ def complete_ensemble_sift(X, nensembles=4, ensemble_noise=.2,
         next_imf = np.array([r for r in res]).mean(axis=0)
 
         imf = np.concatenate((imf, next_imf), axis=1)
+        layer += 1
 
         args = [(noise[:, ii, None], sift_thresh, 1, None, imf_opts, envelope_opts, extrema_opts)
                 for ii in range(nensembles)]
@@ -800,8 +806,6 @@ def complete_ensemble_sift(X, nensembles=4, ensemble_noise=.2,
 
         if np.abs(next_imf).mean() < sift_thresh:
             continue_sift = False
-
-        layer += 1
 
     p.close()
 
